@@ -40,7 +40,9 @@ impl Uci {
     fn uci_loop(&mut self, input: &mut impl BufRead) {
         loop {
             let mut line = String::new();
-            input.read_line(&mut line).unwrap();
+            if input.read_line(&mut line).unwrap() == 0 {
+                break; // End of input
+            }
             let trimmed = line.trim();
             let fields: Vec<_> = trimmed.split_whitespace().collect();
 
